@@ -958,6 +958,19 @@ def r07_8(ctx: Ctx, need: str = "contains-seed"):
     return obs
 
 
+def r07_9(ctx: Ctx):
+    """R07.9 a candidate stays under the deme that proposed it: filters only ever shrink `candidates[deme].individuals` (R10.2) -
+    a filter that re-adds or moves candidates can file a seed under a deme whose population never held it, and that deme then
+    becomes the child's parent."""
+    from . import c10  # late import: c10 imports this module
+
+    out = []
+    for o in c10.r10_2(ctx):
+        o.rule = "R07.9"
+        out.append(o)
+    return out
+
+
 RULES = [
     ("R07.1", r07_1, 9),
     ("R07.2", r07_2, 4),
@@ -967,4 +980,5 @@ RULES = [
     ("R07.6", r07_6, 4),
     ("R07.7", r07_7, 8),
     ("R07.8", r07_8, 9),
+    ("R07.9", r07_9, 5),
 ]
